@@ -28,6 +28,7 @@ var All = map[string]func(*Ctx){
 		c.vetoOnlyAfterCheck("C04.veto-after-check")
 		c.lockEnforced("C04.lock-enforced")
 		c.hasherPassThrough()
+		c.successResets("C04.success-resets")
 	}),
 	"C05": seq(C05, func(c *Ctx) { c.moduleCopied("C05.instance") }),
 	"C06": seq(C06, func(c *Ctx) { c.ctxUserFirst("C06.subject") }),
@@ -42,10 +43,14 @@ var All = map[string]func(*Ctx){
 		c.mwOutermost("C08.outermost")
 		c.apiStatusVerbatim("C08.api-status")
 		c.refusalConfigMapped("C08.refusal-config")
+		c.routeRequirements("C08.route-reqs")
 	}),
 	"C09": seq(C09, (*Ctx).flushDiscipline, func(c *Ctx) { c.flushUnmodified("C09.queue") }),
-	"C10": C10,
-	"C11": seq(C11, func(c *Ctx) { c.noStateAfterWrite("C11.before-write") }),
+	"C10": seq(C10, func(c *Ctx) { c.delAllQueued("C10.delall-queued") }),
+	"C11": seq(C11, func(c *Ctx) {
+		c.noStateAfterWrite("C11.before-write")
+		c.readStateErrors("C11.read-err")
+	}),
 	"C12": seq(C12, (*Ctx).smsInvariant, func(c *Ctx) { c.localizeFallback("C12.status-text") }),
 	"C13": seq(C13, (*Ctx).c12Recovery, func(c *Ctx) {
 		c.localizeFallback("C13.status-text")
@@ -66,8 +71,8 @@ var All = map[string]func(*Ctx){
 			c.lockStateStructure(uls)
 		}
 	}),
-	"C17": seq(C17, (*Ctx).hasherPassThrough),
-	"C18": C18,
+	"C17": seq(C17, (*Ctx).hasherPassThrough, (*Ctx).c19Whitelist),
+	"C18": seq(C18, func(c *Ctx) { c.readStateErrors("C18.read-err") }),
 	"C19": seq(C19, (*Ctx).hasherPassThrough),
 	"C20": seq(C20, func(c *Ctx) {
 		c.moduleCopied("C20.instance")
